@@ -1072,6 +1072,10 @@ func (e *Evaluator) evalRules(rules []*Rule) error {
 		match := true
 		if rule.Pattern != nil {
 			cell, err := e.evalExpr(rule.Pattern)
+			if err == errNext {
+				// next inside a pattern also abandons the remaining rules
+				return nil
+			}
 			if err != nil {
 				return err
 			}
